@@ -94,6 +94,10 @@ pub enum ROp {
     FailNext { src: SrcId, step: FailStep },
     /// into_source_inner (+unwrap) of `src`; a following Created/Insert pair re-inserts the fd
     Unwrap { src: SrcId },
+    /// adapt_io on harness fd slot; `live_before`: the slot already had a live adapter
+    Adapt { slot: u8, fd: i32, live_before: bool, regular_file: bool, nonblocking_before: bool },
+    AsyncRelease { a: usize, fd: i32, into_inner: bool },
+    InsertBad { which: u8, fd: i32 },
 }
 
 #[derive(Serialize, Deserialize, Debug, Clone, PartialEq)]
@@ -142,6 +146,10 @@ pub enum Ev {
     IdleDrop { idle: IdleId },
     Stats { slots: usize, occupied: usize, lifecycle_len: usize, lifecycle_distinct: usize, heap: usize, idles: usize, pending_continue: bool },
     Epoll { entries: Vec<(i32, u32, u64)> },
+    /// result of adapt_io: adapter index when Ok; O_NONBLOCK flag of the fd right after the call
+    Adapted { a: Option<usize>, nonblocking_after: bool },
+    /// O_NONBLOCK of the fd after the adapter was released
+    AsyncReleased { a: usize, nonblocking_after: bool },
     /// teardown markers
     LoopDropped,
     KeptDropped,
